@@ -52,6 +52,13 @@ impl<K, M> Pool<K, M> {
     { unimplemented!() }
     #[verifier::external_body]
     pub fn contains_key(&self, wid: &WorkerId) -> (r: bool) ensures r == self.has(*wid) { unimplemented!() }
+    /// A-std (HashMap::len / is_empty): how many records the map holds -- NOT the factory's pool size (a shrink keeps busy workers in
+    /// the map, marked draining, beyond the new size; a dead worker's slot may be missing below it)
+    pub uninterp spec fn count(&self) -> nat;
+    #[verifier::external_body]
+    pub fn len(&self) -> (r: usize) ensures r == self.count() { unimplemented!() }
+    #[verifier::external_body]
+    pub fn is_empty(&self) -> (r: bool) ensures r == (self.count() == 0) { unimplemented!() }
 }
 
 
